@@ -343,6 +343,42 @@ fn slice_flru(a: &Args, t: &mut Trace) {
     }
 }
 
+/// SegmentedCache at the level of node addresses (kind 11): the trait operations
+fn slice_hslru(a: &Args, t: &mut Trace) {
+    for i in 0..a.n {
+        let (mine, stream, hforce) = case_plan(a, i);
+        if !mine {
+            continue;
+        }
+        let mut r = rng_for(a.seed, stream + 11_000_000);
+        let pc = r.range(1, 4);
+        let fc = r.range(1, 4);
+        let hmode = hforce.unwrap_or(r.below(5));
+        let len = r.range(a.len / 4 + 1, a.len) as usize;
+        let mut kg = gen::KeyGen::new(pc + fc + 3);
+        let mut vg = gen::ValGen(1000);
+        let cfg = [pc as i128, fc as i128];
+        let id = format!("hslru-s{}-i{}", a.seed, i);
+        let meta = format!("hasher={}", hmode);
+        run_case(
+            t,
+            &id,
+            11,
+            &cfg,
+            &meta,
+            &|| Box::new(hlru::HSlruSubj::new(pc as usize, fc as usize, hmode)),
+            &mut |step, snap| {
+                if step >= len {
+                    return None;
+                }
+                let res = hlru::slru_resident(snap);
+                Some(gen::trait_op(&mut r, &mut kg, &mut vg, &res))
+            },
+            &tag,
+        );
+    }
+}
+
 /// RawLRU at the level of node addresses (kind 9): the operations the heap model covers
 fn slice_hlru(a: &Args, t: &mut Trace) {
     let caps: [u64; 8] = [1, 1, 2, 2, 3, 4, 5, 8];
@@ -647,6 +683,7 @@ pub fn mk_subject(kind: u32, cfg: &[i128], meta: &std::collections::HashMap<Stri
         7 => Box::new(putres::PutResSubj),
         8 => Box::new(ctor::CtorSubj),
         9 => Box::new(hlru::HLruSubj::new(cfg[0] as usize, m("hasher"))),
+        11 => Box::new(hlru::HSlruSubj::new(cfg[0] as usize, cfg[1] as usize, m("hasher"))),
         _ => panic!("unknown kind"),
     }
 }
@@ -887,6 +924,7 @@ fn main() {
         "hlru" => slice_hlru(&a, &mut t),
         "fault" => slice_fault(&a, &mut t),
         "flru" => slice_flru(&a, &mut t),
+        "hslru" => slice_hslru(&a, &mut t),
         s => {
             eprintln!("unknown slice {}", s);
             std::process::exit(2);
